@@ -240,7 +240,7 @@ def prof_mixed(g, n, **kw):
 def cases_for(prop, tier, seed):
     thorough = tier == "thorough"
     g = Gen(seed, stream=int(prop[1:]))
-    k = 10 if thorough else 1
+    k = 30 if thorough else 1
     if prop == "C11":
         return CORPUS.get(prop, []) + prof_layout(g, 600 * k) + prof_mixed(g, 60 * k, depth=1, field_kw={"conv_p": 0.1})
     raise KeyError(prop)
@@ -288,7 +288,7 @@ def prof_enum(g, tier):
                         continue
                     out.append(enum_case(w, list(values), t, syntax="json" if g.chance(0.8) else "dsl"))
     # random wider enums, gaps / out of range / full coverage
-    for _ in range(3000 if thorough else 400):
+    for _ in range(9000 if thorough else 400):
         w = g.r.randint(1, 10 if not thorough else 12)
         full = g.chance(0.25) and w <= 6
         if full:
@@ -313,7 +313,7 @@ def prof_enum(g, tier):
     # cfg alternatives: two variants may share a number when their cfgs differ. Lists with at least 2^w
     # entries that still leave a bit pattern uncovered (count-based reasoning about totality is wrong here),
     # complete lists with an alternative, and same-cfg duplicates (must be rejected).
-    for _ in range(1500 if thorough else 260):
+    for _ in range(5000 if thorough else 260):
         w = g.r.randint(1, 3)
         full = list(range(1 << w))
         g.r.shuffle(full)
@@ -339,7 +339,7 @@ def prof_enum(g, tier):
         out.append(enum_case(w, vals, g.chance(0.15), syntax=pick_syntax(g), cfgs=cfgs,
                              reuse=((g.r.randint(1, w + 1), False) if g.chance(0.2) else None)))
     # signed fields: numbers may be negative; the analysis still reasons over 0 ..= 2^w - 1
-    for _ in range(1000 if thorough else 160):
+    for _ in range(3000 if thorough else 160):
         w = g.r.randint(1, 3)
         n = g.r.randint(1, (1 << w) + 1)
         pool = list(range(-(1 << (w - 1)) - 1, (1 << w) + 1))
@@ -591,7 +591,7 @@ _cases_for_base = cases_for
 def cases_for(prop, tier, seed):
     thorough = tier == "thorough"
     g = Gen(seed, stream=int(prop[1:]))
-    k = 10 if thorough else 1
+    k = 30 if thorough else 1
     if prop in ("C15", "C07"):
         return CORPUS.get(prop, []) + prof_enum(g, tier)
     if prop == "C08":
@@ -792,7 +792,7 @@ _cases_for_base2 = cases_for
 def cases_for(prop, tier, seed):
     thorough = tier == "thorough"
     g = Gen(seed, stream=int(prop[1:]))
-    k = 10 if thorough else 1
+    k = 30 if thorough else 1
     if prop == "C12":
         return CORPUS.get(prop, []) + prof_collide(g, 700 * k) + prof_mixed(g, 150 * k, depth=2, neg=True, field_kw={"conv_p": 0.05})
     if prop == "C13":
@@ -977,7 +977,7 @@ _cases_for_base3 = cases_for
 def cases_for(prop, tier, seed):
     thorough = tier == "thorough"
     g = Gen(seed, stream=int(prop[1:]))
-    k = 10 if thorough else 1
+    k = 30 if thorough else 1
     if prop == "C14":
         return CORPUS.get(prop, []) + prof_names(g, 1000 * k)
     return _cases_for_base3(prop, tier, seed)
@@ -1064,7 +1064,7 @@ _cases_for_base4 = cases_for
 def cases_for(prop, tier, seed):
     thorough = tier == "thorough"
     g = Gen(seed, stream=int(prop[1:]))
-    k = 10 if thorough else 1
+    k = 30 if thorough else 1
     if prop == "C16":
         return CORPUS.get(prop, []) + prof_four_syntaxes(g, 120 * k) + prof_defaults(g, 80 * k)
     if prop == "C06":
@@ -1129,7 +1129,7 @@ _cases_for_base5 = cases_for
 def cases_for(prop, tier, seed):
     thorough = tier == "thorough"
     g = Gen(seed, stream=int(prop[1:]))
-    k = 10 if thorough else 1
+    k = 30 if thorough else 1
     if prop == "C19":
         f14 = case({"config": {"register_address_type": "u8"}, "objects": [
             {"kind": "block", "name": "Dev", "address_offset": "1", "objects": [
@@ -1175,7 +1175,7 @@ _cases_for_base6 = cases_for
 def cases_for(prop, tier, seed):
     thorough = tier == "thorough"
     g = Gen(seed, stream=int(prop[1:]))
-    k = 10 if thorough else 1
+    k = 30 if thorough else 1
     if prop == "C20":
         return CORPUS.get(prop, []) + prof_c20(g, 40 * k)
     return _cases_for_base6(prop, tier, seed)
